@@ -56,6 +56,8 @@ REQUIRED_COUNTERS = [
     "run_cli_invalid_rejected", "run_obs_seq_invalid_rejected", "run_obs_dask_invalid_rejected",
     "run_calib_invalid_rejected", "sweep_undeclared_seq", "sweep_undeclared_dask", "sweep_disabled_seq",
     "sweep_disabled_dask", "probe_events", "key_class_truncate", "key_class_edit", "key_class_abbrev",
+    "entry_set_applied", "shared_name_pipelines", "sweep_disabled_namesake", "copy_original_unchanged",
+    "copy_points_checked", "sweep_valid_seq", "sweep_valid_dask",
 ]
 TIMEOUT = {"quick": 600, "thorough": 3000}
 LEVEL_TEXT = ("Exploration by runtime monitoring: thousands (quick) to tens of thousands (thorough) of (entry point, key, "
@@ -291,6 +293,8 @@ def report(rec, mech, detail, case, index):
 ARG_NAMES = ["a", "ab", "abc", "level", "lev", "file", "gain", "x_y", "enabled", "arguments", "name", "row", "k0"]
 EXT = ["zz9", "foo", "real", "value", "0", "arguments", "enabled", "name", "x"]
 ALPHA = "abcdefghijklmnopqrstuvwxyz_0"
+ENTRY_NAMES = ["k0", "k1", "threshold", "seed", "enabled", "name", "n", "shape", "arguments", "lev"]
+ENTRY = "argument-entry"  # an entry inside a dictionary-valued argument: pipeline.<g>.<m>.arguments.<a>.<entry>[.<entry>]
 
 
 def rand_value(rng, depth=0):
@@ -311,18 +315,34 @@ def rand_value(rng, depth=0):
     return {"k" + str(i): rand_value(rng, depth + 1) for i in range(rng.randint(1, 2))}
 
 
-def gen_pipeline(rng, mapping_names=False) -> dict:
+def rand_dict(rng, depth=0) -> dict:
+    """A dictionary-valued argument (nested configuration): 1-3 entries, sometimes a dictionary again."""
+    out = {}
+    for nm in rng.sample(ENTRY_NAMES, rng.randint(1, 3)):
+        out[nm] = rand_dict(rng, depth + 1) if depth < 1 and rng.random() < 0.25 else rand_value(rng, depth + 1)
+    return out
+
+
+def gen_pipeline(rng, mapping_names=False, shared_names=False) -> dict:
+    """shared_names: model names carry no group prefix, so that several groups hold a model of the same name
+    (a key addresses a model through its group; names are only unique inside a group)."""
     groups = rng.sample(build.GROUPS, rng.randint(1, 4))
     pspec = {}
+
+    def nm(g, short):
+        return short if shared_names else f"{g}_{short}"
+
     for g in groups:
         models = []
         for j in range(rng.randint(1, 3)):
             args = {an: rand_value(rng) for an in rng.sample(ARG_NAMES, rng.randint(0, 4))}
+            if rng.random() < 0.35:  # a nested configuration: its entries are addressed with one more component
+                args[rng.choice(ARG_NAMES)] = rand_dict(rng)
             args["n"] = rng.randint(0, 5)
-            models.append({"name": f"{g}_m{j}", "func": PROBE, "arguments": args, "enabled": rng.random() < 0.7})
+            models.append({"name": nm(g, f"m{j}"), "func": PROBE, "arguments": args, "enabled": rng.random() < 0.7})
         if rng.random() < 0.5:  # a model whose name extends another model's name
             models.insert(rng.randint(0, len(models)),
-                          {"name": f"{g}_m0x", "func": PROBE, "arguments": {"a": rng.randint(0, 9), "n": 1},
+                          {"name": nm(g, "m0x"), "func": PROBE, "arguments": {"a": rng.randint(0, 9), "n": 1},
                            "enabled": rng.random() < 0.7})
         pspec[g] = models
     allm = [m for ms in pspec.values() for m in ms]
@@ -330,7 +350,7 @@ def gen_pipeline(rng, mapping_names=False) -> dict:
         rng.choice(allm)["enabled"] = True
     if not any(not m["enabled"] for m in allm):
         g = rng.choice(list(pspec))
-        pspec[g].append({"name": f"{g}_off", "func": PROBE, "arguments": {"a": 1, "n": 2, "lev": 0.5}, "enabled": False})
+        pspec[g].append({"name": nm(g, "off"), "func": PROBE, "arguments": {"a": 1, "n": 2, "lev": 0.5}, "enabled": False})
     if mapping_names:
         m = rng.choice([m for ms in pspec.values() for m in ms])
         m["arguments"][rng.choice(MAPPING_NAMES[:5])] = rng.randint(1, 9)
@@ -346,9 +366,33 @@ def valid_keys(kind: str, pspec: dict) -> dict:
     for g, models in pspec.items():
         for m in models:
             out[f"pipeline.{g}.{m['name']}.enabled"] = {"cls": "enabled-flag", "group": g, "model": m["name"]}
-            for a in m["arguments"]:
+            for a, v in m["arguments"].items():
                 out[f"pipeline.{g}.{m['name']}.arguments.{a}"] = {"cls": "model-argument", "group": g,
                                                                   "model": m["name"], "arg": a}
+                for path in dict_entries(v):
+                    out[f"pipeline.{g}.{m['name']}.arguments.{a}." + ".".join(path)] = {
+                        "cls": ENTRY, "group": g, "model": m["name"], "arg": a, "path": list(path)}
+    return out
+
+
+def dict_entries(value, prefix=()):
+    """Paths of the entries reachable from an argument value through dictionaries only."""
+    if isinstance(value, dict):
+        for k, v in value.items():
+            if isinstance(k, str) and k and "." not in k:
+                yield prefix + (k,)
+                yield from dict_entries(v, prefix + (k,))
+
+
+def with_entry(value, path, new):
+    """Reference model: a deep copy of the argument value with the entry at `path` replaced."""
+    out = copy.deepcopy(value)
+    if not path:
+        return copy.deepcopy(new)
+    box = out
+    for p in path[:-1]:
+        box = box[p]
+    box[path[-1]] = copy.deepcopy(new)
     return out
 
 
@@ -578,8 +622,18 @@ def view(detector, pipeline) -> dict:
             args = dict(m.arguments)
             out[base + ".arguments/<names>"] = repr(list(args))
             for a, v in args.items():
-                out[f"{base}.arguments.{a}"] = norm(v)
+                _view_value(out, f"{base}.arguments.{a}", v)
     return out
+
+
+def _view_value(out, key, v):
+    """A dictionary-valued argument is shown entry by entry (each entry is addressable by a key)."""
+    if isinstance(v, dict) and all(isinstance(k, str) for k in v):
+        out[key + "/<entries>"] = repr(list(v))
+        for k, x in v.items():
+            _view_value(out, f"{key}.{k}", x)
+    else:
+        out[key] = norm(v)
 
 
 _UNSET = object()
@@ -595,7 +649,23 @@ def read_direct(pr, info):
     m = find_model(pr.pipeline, info["group"], info["model"])
     if info["cls"] == "enabled-flag":
         return m.enabled
-    return dict(m.arguments)[info["arg"]]
+    v = dict(m.arguments)[info["arg"]]
+    for p in info.get("path", ()):
+        v = v[p]
+    return v
+
+
+def entry_container(pr, info):
+    """The dictionary that holds the addressed entry in the current state, or None (an ancestor was re-assigned)."""
+    try:
+        v = dict(find_model(pr.pipeline, info["group"], info["model"]).arguments)[info["arg"]]
+        for p in info["path"][:-1]:
+            if not isinstance(v, dict):
+                return None
+            v = v[p]
+    except (KeyError, LookupError):
+        return None
+    return v if isinstance(v, dict) and info["path"][-1] in v else None
 
 
 def inside(path: str, prefix: str) -> bool:
@@ -619,7 +689,7 @@ def grew(s0: dict, s1: dict) -> list:
 
 
 def allowed_public(kind, key, info, names) -> set:
-    out = {key}
+    out = {key} | {n for n in names if n.startswith((key + ".", key + "/"))}  # the setting and what it contained
     if info["cls"] == "detector-field":
         sec = info["sec"]
         settable = set(catalogue(kind)[sec])
@@ -675,6 +745,9 @@ def owner_prefixes(pr, info, seen):
     m = find_model(pr.pipeline, info["group"], info["model"])
     if info["cls"] == "enabled-flag":
         return seen.get(id(m)), seen.get(id(m.arguments)), None
+    if info["cls"] == ENTRY:
+        box = entry_container(pr, info)
+        return (seen.get(id(box)) if box is not None else None), None, f"[{info['path'][-1]!r}]"
     return seen.get(id(m.arguments)), None, f"[{info['arg']!r}]"
 
 
@@ -696,6 +769,16 @@ def check_assignment(rec, pr, kind, key, info, given, convert, case, index, nati
         report(rec, f"C08:has:{cls}:raised-on-existing-setting", f"has({key!r}) raised {type(exc).__name__}: {exc}", case, index)
         return False
     if h is not True:
+        if cls == ENTRY:  # an entry of a nested configuration may be no setting of its own: then it must be refused
+            rec.count("entry_key_not_a_setting")
+            s0 = snap_all(pr)
+            try:
+                pr.set(key, given)
+            except Exception:  # noqa: BLE001
+                pass
+            if snapshot.diff(s0, snap_all(pr)):
+                report(rec, f"{tag}:has-false-but-assigned", f"has({key!r}) is {h!r} but set changed the processor", case, index)
+            return False
         report(rec, f"C08:has:{cls}:false-on-existing-setting", f"has({key!r}) returned {h!r}", case, index)
         return False
     rec.count("valid_has_true")
@@ -719,7 +802,7 @@ def check_assignment(rec, pr, kind, key, info, given, convert, case, index, nati
         if snapshot.diff(s0, s1):
             report(rec, f"{tag}:refused-but-changed", f"set({key!r}, {given!r}) raised {type(exc).__name__} and changed "
                    f"{snapshot.diff(s0, s1)[:4]}", case, index)
-        elif ekind == "exact" and native:
+        elif ekind == "exact" and native and cls != ENTRY:
             what = "refused" if not isinstance(given, str) else f"convert:{vcls}:refused"
             report(rec, f"{tag}:{what}", f"set({key!r}, {given!r}) raised {type(exc).__name__}: {str(exc)[:200]}", case, index)
         else:
@@ -735,6 +818,8 @@ def check_assignment(rec, pr, kind, key, info, given, convert, case, index, nati
     s1 = snap_all(pr)
     v1 = view(pr.detector, pr.pipeline)
     rec.count("valid_set_applied")
+    if cls == ENTRY:
+        rec.count("entry_set_applied")
     ok = True
 
     # (1) the value that is now stored (read through the public objects)
@@ -787,6 +872,17 @@ def check_assignment(rec, pr, kind, key, info, given, convert, case, index, nati
         ok = False
 
     # (4) read-back through Processor.get
+    if cls == ENTRY:
+        # observe-only (reported, awaiting an answer): on the unchanged tree Processor.get raises AttributeError
+        # for an entry of a dictionary argument although has() is True and set() assigns it
+        try:
+            got = pr.get(key)
+        except Exception as exc:  # noqa: BLE001
+            rec.count("entry_get_raised")
+            rec.observe("entry_get_exceptions", type(exc).__name__)
+            return ok
+        rec.count("entry_readback_ok" if judge_value(got, ekind, alts) or same(got, new) else "entry_readback_differs")
+        return ok
     try:
         got = pr.get(key)
     except Exception as exc:  # noqa: BLE001
@@ -810,6 +906,9 @@ def phase_direct_valid(rec, rng, kind, dspec, pspec, vkeys, case, index):
     for key in keys:
         info = vkeys[key]
         native = True
+        if info["cls"] == ENTRY and entry_container(pr, info) is None:
+            pr = make_processor(dspec, pspec)  # an earlier assignment replaced the dictionary that held this entry
+            rec.count("entry_key_fresh_processor")
         if info["cls"] == "detector-field":
             given, native = gen_field_value(rng, info["spec"])
         elif info["cls"] == "enabled-flag":
@@ -824,17 +923,19 @@ def phase_direct_valid(rec, rng, kind, dspec, pspec, vkeys, case, index):
 
 
 def phase_text(rec, rng, kind, dspec, pspec, vkeys, case, index, n_texts):
-    argkeys = [k for k in vkeys if vkeys[k]["cls"] == "model-argument" and vkeys[k]["arg"] not in MAPPING_NAMES]
+    argkeys = [k for k in vkeys if vkeys[k]["cls"] in ("model-argument", ENTRY) and vkeys[k]["arg"] not in MAPPING_NAMES]
     pr = make_processor(dspec, pspec)
     pool = LITS + WORDS + UNDEFINED
     texts = rng.sample(pool, min(n_texts, len(pool))) + [gen_text(rng) for _ in range(4)]
     for t in texts:
         key = rng.choice(argkeys)
+        if vkeys[key]["cls"] == ENTRY and entry_container(pr, vkeys[key]) is None:
+            pr = make_processor(dspec, pspec)
         convert = rng.choice([None, True, True, False])
         if not check_assignment(rec, pr, kind, key, vkeys[key], t, convert, case, index):
             pr = make_processor(dspec, pspec)
     # textual values for an enabled flag and verbatim storage of non-text values with convert_value=False
-    key = rng.choice(argkeys)
+    key = rng.choice([k for k in argkeys if vkeys[k]["cls"] == "model-argument"])
     for v in (np.arange(3), [1, "2"], 7, "[1, 2]"):
         check_assignment(rec, pr, kind, key, vkeys[key], v, False, case, index)
 
@@ -968,24 +1069,29 @@ def baseline_fields(dspec) -> dict:
 
 
 def events_vs_expected(events, pspec_expected, base_fields, allowed_fields, field_key=None, field_alts=None,
-                       arg_at=None, arg_alts=None):
-    """Compare the probe trace of ONE run with the reference.  -> list of (what, detail)."""
+                       arg_at=None, arg_alts=None, addressed=None):
+    """Compare the probe trace of ONE run with the reference.  -> list of (what, detail).
+    addressed: {(group, model, argument): [acceptable values]} for several assigned arguments."""
     out = []
+    addressed = dict(addressed or {})
+    if arg_at is not None:
+        addressed[arg_at] = arg_alts
     exp = build.expected_calls(pspec_expected, 1)
     got_names = [e["model"] for e in events]
     exp_names = [n for (_s, _g, n, _a) in exp]
     if got_names != exp_names:
         out.append(("executed-models-differ", f"executed {got_names}, expected {exp_names}"))
         return out
-    for ev, (_s, _g, name, args) in zip(events, exp):
+    for ev, (_s, grp, name, args) in zip(events, exp):
         kw = ev["kwargs"]
         if list(kw) != list(args):
             out.append(("argument-names-differ", f"{name}: received {list(kw)}, declared {list(args)}"))
             continue
         for a in args:
-            if arg_at == (name, a):
-                if not any(same(kw[a], alt) for alt in arg_alts):
-                    out.append(("addressed-argument-wrong", f"{name}.{a}: received {kw[a]!r}, expected one of {arg_alts!r}"))
+            if (grp, name, a) in addressed:  # the group counts: another group may hold a model of the same name
+                if not any(same(kw[a], alt) for alt in addressed[(grp, name, a)]):
+                    out.append(("addressed-argument-wrong",
+                                f"{grp}.{name}.{a}: received {kw[a]!r}, expected one of {addressed[(grp, name, a)]!r}"))
             elif norm(kw[a]) != norm(args[a]):
                 out.append(("other-argument-changed", f"{name}.{a}: received {kw[a]!r}, configured {args[a]!r}"))
         fields = {k: norm(v) for k, v in ev["fields"].items()}
@@ -1057,7 +1163,7 @@ def phase_run_valid(rec, rng, kind, dspec, pspec, vkeys, case, index):
             if exc is not None:
                 if events:
                     report(rec, f"{tag}:failed-after-models-ran", f"{key}={given!r}: {type(exc).__name__}: {exc}", c, index)
-                elif ekind == "exact" and native and not isinstance(given, np.generic):
+                elif ekind == "exact" and native and not isinstance(given, np.generic) and cls != ENTRY:
                     report(rec, f"{tag}:refused", f"{key}={given!r}: {type(exc).__name__}: {str(exc)[:200]}", c, index)
                 else:
                     rec.count(f"run_{entry}_valid_refused_tolerated")
@@ -1073,8 +1179,10 @@ def phase_run_valid(rec, rng, kind, dspec, pspec, vkeys, case, index):
                     if m["name"] == info["model"]:
                         if cls == "enabled-flag":
                             m["enabled"] = bool(alts[0])
-                        else:
-                            kw = {"arg_at": (m["name"], info["arg"]), "arg_alts": alts}
+                        else:  # the whole argument the model must receive (an entry key replaces one entry of it)
+                            kw = {"arg_at": (info["group"], m["name"], info["arg"]),
+                                  "arg_alts": [with_entry(m["arguments"][info["arg"]], info.get("path", []), alt)
+                                               for alt in alts]}
             problems = events_vs_expected(events, ps2, base, allowed, **kw)
             for what, detail in problems[:3]:
                 report(rec, f"{tag}:{what}", f"{key}={given!r}: {detail}", c, index)
@@ -1203,11 +1311,16 @@ def phase_sweeps(rec, rng, kind, dspec, pspec, vkeys, case, index):
     import pyxel
     from pyxel.exposure import Readout
     from pyxel.observation import Observation, ParameterValues
-    enabled_args, disabled_args, undeclared = [], [], []
+    enabled_args, disabled_args, undeclared, namesake_args = [], [], [], []
     for g, ms in pspec.items():
         for m in ms:
+            # a disabled model whose name is also the name of an enabled model of another group
+            namesake = not m["enabled"] and any(m2["enabled"] and m2["name"] == m["name"]
+                                                for g2, ms2 in pspec.items() if g2 != g for m2 in ms2)
             for a in m["arguments"]:
                 (enabled_args if m["enabled"] else disabled_args).append(f"pipeline.{g}.{m['name']}.arguments.{a}")
+                if namesake:
+                    namesake_args.append(f"pipeline.{g}.{m['name']}.arguments.{a}")
             junk = rng.choice(["undeclared", "zz", "N", "n_", "level2"])
             if junk not in m["arguments"]:
                 undeclared.append(f"pipeline.{g}.{m['name']}.arguments.{junk}")
@@ -1215,7 +1328,7 @@ def phase_sweeps(rec, rng, kind, dspec, pspec, vkeys, case, index):
     for dask in (False, True):
         plans.append(("undeclared", rng.choice(undeclared), dask))
         if disabled_args:
-            plans.append(("disabled", rng.choice(disabled_args), dask))
+            plans.append(("disabled", rng.choice(namesake_args if namesake_args and rng.random() < 0.6 else disabled_args), dask))
     for what, key, dask in plans:
         mode = rng.choice(["product", "product", "sequential"])
         params = [{"key": key, "values": rng.choice([[1, 2], [0.5], ["a.fits", "b.fits"], [3, 4, 5]])}]
@@ -1251,7 +1364,250 @@ def phase_sweeps(rec, rng, kind, dspec, pspec, vkeys, case, index):
                    c, index)
         else:
             rec.count(f"sweep_{what}_{path}")
+            if what == "disabled" and key in namesake_args:
+                rec.count("sweep_disabled_namesake")
             rec.observe("sweep_refusal_types", type(exc).__name__)
+
+
+# ------------------------------------------------------------------ sweeps of valid keys: every point is a copy
+def gen_point_value(rng, info, avoid=()):
+    """A native value with exactly one expected stored form (no conversion alternatives)."""
+    for _ in range(20):
+        if info["cls"] == "detector-field":
+            typ, lo, hi = info["spec"]
+            if typ == "int":
+                v = rng.randint(lo, hi)
+            elif typ == "float":
+                v = round(rng.uniform(lo + 0.05 * (hi - lo), hi - 0.05 * (hi - lo)), 3)
+            else:
+                v = [round(rng.uniform(lo, 0.0), 2), round(rng.uniform(0.5, hi), 2)]
+        elif info["cls"] == "enabled-flag":
+            v = rng.random() < 0.5
+        else:
+            v = rng.choice([rng.randint(-99, 99), round(rng.uniform(-5, 5), 3), rng.choice(["alpha", "b.fits", "x y"]),
+                            rng.randint(100, 999)])
+        if not any(same(v, x) for x in avoid):
+            return v
+    return v
+
+
+def independent(keys) -> bool:
+    """No key addresses something inside what another key addresses."""
+    return not any(b.startswith(a + ".") for a in keys for b in keys)
+
+
+def pick_swept(rng, vkeys, candidates, n):
+    entries = [k for k in candidates if vkeys[k]["cls"] == ENTRY]
+    for _ in range(10):
+        ks = rng.sample(candidates, min(n, len(candidates)))
+        if entries and rng.random() < 0.5 and not any(k in entries for k in ks):
+            ks[0] = rng.choice(entries)
+        linked = [k for k in ks if vkeys[k].get("field") in APD_LINKED]  # one linked triple: any two set the third
+        if len(set(ks)) == len(ks) and independent(ks) and len(linked) <= 1:
+            return ks
+    return ks[:1]
+
+
+def expected_pspec(pspec, vkeys, assignments) -> dict:
+    """Reference model: the specification with the assignments of one sweep point applied (arguments / flags)."""
+    ps2 = copy.deepcopy(pspec)
+    for key, value in assignments.items():
+        info = vkeys[key]
+        if info["cls"] == "detector-field":
+            continue
+        for m in ps2[info["group"]]:
+            if m["name"] == info["model"]:
+                if info["cls"] == "enabled-flag":
+                    m["enabled"] = bool(value)
+                else:
+                    m["arguments"][info["arg"]] = with_entry(m["arguments"][info["arg"]], info.get("path", []), value)
+    return ps2
+
+
+def phase_copies(rec, rng, kind, dspec, pspec, vkeys, case, index):
+    """What a sweep / a calibration does: several copies of ONE processor, each with its own assignments
+    (Processor.replace, or deepcopy + Processor.set).  Judged after all copies were made: the original shows what was
+    configured, every copy shows the configuration + exactly its own assignments."""
+    pr0 = make_processor(dspec, pspec)
+    keys = list(vkeys)
+    swept = pick_swept(rng, vkeys, keys, rng.randint(1, 2))
+    points, used = [], {k: [] for k in swept}
+    for _ in range(rng.randint(2, 4)):
+        pt = {}
+        for k in swept:
+            pt[k] = gen_point_value(rng, vkeys[k], avoid=used[k])
+            used[k].append(pt[k])
+        points.append(pt)
+    other = [k for k in keys if independent(swept + [k]) and k not in swept and vkeys[k].get("field") not in APD_LINKED]
+    if other:  # one more copy that assigns something else: the swept settings keep their configured value there
+        k = rng.choice(other)
+        points.insert(rng.randint(0, len(points)), {k: gen_point_value(rng, vkeys[k])})
+    v0 = view(pr0.detector, pr0.pipeline)
+    names = set(v0)
+    copies = []
+    for pt in points:
+        how = rng.choice(["replace", "deepcopy+set"])
+        if how == "replace" and not callable(getattr(pr0, "replace", None)):
+            how = "deepcopy+set"
+        c = dict(case, entry=f"copy:{how}", point={k: repr(v) for k, v in pt.items()},
+                 points=[{k: repr(v) for k, v in p.items()} for p in points])
+        rec.case(["copy", how, sorted((k, repr(v)) for k, v in pt.items()), kind], True, sample=c)
+        try:
+            if how == "replace":
+                cp = pr0.replace(pt)
+            else:
+                cp = copy.deepcopy(pr0)
+                for k, v in pt.items():
+                    cp.set(k, v)
+        except Exception as exc:  # noqa: BLE001
+            if all(vkeys[k]["cls"] == ENTRY for k in pt):
+                rec.count("copy_point_refused_tolerated")
+            else:
+                report(rec, f"C08:copy:{how}:refused", f"{pt!r}: {type(exc).__name__}: {str(exc)[:200]}", c, index)
+            continue
+        copies.append((how, pt, cp, c))
+    v1 = view(pr0.detector, pr0.pipeline)
+    moved = sorted(k for k in set(v0) | set(v1) if v0.get(k) != v1.get(k))
+    if moved:
+        report(rec, "C08:copy:original-changed", f"assignments on copies {points!r} changed the copied processor: "
+               f"{[(k, v0.get(k), v1.get(k)) for k in moved[:3]]}", dict(case, entry="copy", points=repr(points)), index)
+    else:
+        rec.count("copy_original_unchanged")
+    for how, pt, cp, c in copies:
+        vc = view(cp.detector, cp.pipeline)
+        changed = {k for k in set(v0) | set(vc) if v0.get(k) != vc.get(k)}
+        allowed = set()
+        for k in pt:
+            allowed |= allowed_public(kind, k, vkeys[k], names | set(vc))
+        extra = sorted(changed - allowed)
+        ok = True
+        if extra:
+            report(rec, f"C08:copy:{how}:other-setting-changed", f"copy with {pt!r} (sweep {points!r}) also differs from "
+                   f"the configuration in {[(k, v0.get(k), vc.get(k)) for k in extra[:3]]}", c, index)
+            ok = False
+        for k, v in pt.items():
+            try:
+                new = read_direct(cp, vkeys[k])
+            except Exception as exc:  # noqa: BLE001
+                new = f"<unreadable {type(exc).__name__}>"
+            if not judge_value(new, *expectation(v, True)):
+                report(rec, f"C08:copy:{how}:value-not-stored", f"copy with {pt!r} (sweep {points!r}) holds {k}={new!r}", c, index)
+                ok = False
+        if ok:
+            rec.count("copy_points_checked")
+            rec.observe("copy_key_classes", "+".join(sorted({vkeys[k]["cls"] for k in pt})))
+
+
+def phase_sweep_valid(rec, rng, kind, dspec, pspec, vkeys, case, index):
+    """An observation over existing settings of enabled models / of the detector: every pipeline of the sweep must see
+    the configuration + exactly its own point, every point exactly once, and the objects handed in keep their settings."""
+    import pyxel
+    from pyxel.exposure import Readout
+    from pyxel.observation import Observation, ParameterValues
+    enabled = {(g, m["name"]) for g, ms in pspec.items() for m in ms if m["enabled"]}
+    cands = []
+    for k, info in vkeys.items():
+        if info["cls"] in ("model-argument", ENTRY):
+            if (info["group"], info["model"]) in enabled and info["arg"] not in MAPPING_NAMES:
+                cands.append(k)
+        elif info["cls"] == "detector-field" and info["spec"][0] == "float" and info["field"] not in APD_LINKED:
+            cands.append(k)
+    base = baseline_fields(dspec)
+    for dask in (False, True):
+        path = "dask" if dask else "seq"
+        swept = pick_swept(rng, vkeys, cands, rng.choice([1, 1, 2]))
+        values = {}
+        for k in swept:
+            vals = []
+            for _ in range(rng.randint(2, 3)):
+                vals.append(gen_point_value(rng, vkeys[k], avoid=vals))
+            if any(isinstance(v, str) for v in vals):  # one axis holds one kind of value
+                vals = [v if isinstance(v, str) else f"f{n}.fits" for n, v in enumerate(vals)]
+            values[k] = vals
+        mode = "product" if len(swept) > 1 else rng.choice(["product", "sequential"])
+        points = [{}]
+        for k in swept:
+            points = [dict(p, **{k: v}) for p in points for v in values[k]]
+        via_yaml = rng.random() < 0.3
+        params = [{"key": k, "values": values[k]} for k in swept]
+        c = dict(case, entry=f"observation:{path}:{'yaml' if via_yaml else 'api'}", mode=mode, parameters=params, swept="valid")
+        rec.case(["sweep-valid", dask, via_yaml, mode, params, kind], True, sample=c)
+        all_entries = all(vkeys[k]["cls"] == ENTRY for k in swept)
+        probes.reset()
+        exc, before, after = None, None, None
+        try:
+            if via_yaml:
+                doc = yaml_doc(dspec, pspec, {"observation": {"readout": {"times": [1.0]}, "mode": mode, "with_dask": dask,
+                                                              "parameters": params}})
+                pyxel.run(write_yaml(rec, f"sweepv_{index}.yaml", doc))
+            else:
+                det, pipe = build.make_detector(dspec), build.make_pipeline(pspec)
+                before = view(det, pipe)
+                obs = Observation(parameters=[ParameterValues(key=p["key"], values=p["values"]) for p in params],
+                                  readout=Readout(times=[1.0]), mode=mode, with_dask=dask)
+                tree = pyxel.run_mode(mode=obs, detector=det, pipeline=pipe, with_inherited_coords=True)
+                if dask:
+                    tree.load()
+                after = view(det, pipe)
+        except Exception as e:  # noqa: BLE001
+            exc = e
+        events = probes.events()
+        rec.count("probe_events", len(events))
+        tag = f"C08:observation-{path}:valid-sweep"
+        if exc is not None:
+            if events:
+                report(rec, f"{tag}:failed-after-models-ran", f"{params!r}: {type(exc).__name__}: {str(exc)[:200]}", c, index)
+            elif all_entries:
+                rec.count("sweep_valid_entry_refused_tolerated")
+            else:
+                report(rec, f"{tag}:refused", f"{params!r}: {type(exc).__name__}: {str(exc)[:200]}", c, index)
+            continue
+        runs = {}
+        for ev in events:
+            runs.setdefault(ev["det"], []).append(ev)
+        todo = list(range(len(points)))
+        ok = True
+        for run in runs.values():
+            hit, why = None, None
+            for n in todo:
+                pt = points[n]
+                allowed, problems = set(), []
+                for k, v in pt.items():
+                    if vkeys[k]["cls"] == "detector-field":
+                        allowed |= allowed_public(kind, k, vkeys[k], set(base))
+                        problems += [("addressed-field-wrong", f"{k}: saw {ev['fields'].get(k)!r}, point {v!r}")
+                                     for ev in run if not same(ev["fields"].get(k), v)]
+                ps2 = expected_pspec(pspec, vkeys, pt)
+                addressed = {}
+                for k in pt:
+                    info = vkeys[k]
+                    if info["cls"] != "detector-field":
+                        m2 = [m for m in ps2[info["group"]] if m["name"] == info["model"]][0]
+                        addressed[(info["group"], info["model"], info["arg"])] = [m2["arguments"][info["arg"]]]
+                problems += events_vs_expected(run, ps2, base, allowed, addressed=addressed)
+                if not problems:
+                    hit = n
+                    break
+                why = why or problems
+            if hit is None:
+                report(rec, f"{tag}:pipeline-matches-no-point", f"a pipeline of the sweep {params!r} saw settings that are no "
+                       f"remaining point of it, e.g. {why[:2] if why else 'more pipelines than points'}", c, index)
+                ok = False
+            else:
+                todo.remove(hit)
+        if todo and ok:
+            report(rec, f"{tag}:point-not-run", f"sweep {params!r}: {len(runs)} pipelines, points never seen: "
+                   f"{[points[n] for n in todo][:3]}", c, index)
+            ok = False
+        if before is not None and after is not None:
+            moved = sorted(k for k in set(before) | set(after) if before.get(k) != after.get(k))
+            if moved:
+                report(rec, f"{tag}:original-changed", f"sweep {params!r} changed the settings of the objects handed in: "
+                       f"{[(k, before.get(k), after.get(k)) for k in moved[:3]]}", c, index)
+                ok = False
+        if ok:
+            rec.count(f"sweep_valid_{path}")
+            rec.observe("sweep_valid_key_classes", "+".join(sorted({vkeys[k]["cls"] for k in swept})))
 
 
 # ------------------------------------------------------------------ driver
@@ -1259,7 +1615,10 @@ def run_case(rec, i, spec):
     rng = rec.rng(i)
     kind = KINDS[(i + spec["shard"]) % 4] if rng.random() < 0.8 else rng.choice(KINDS)
     dspec = build.default_detector_spec(kind, rng.randint(2, 4), rng.randint(2, 4))
-    pspec = gen_pipeline(rng, mapping_names=(i % 3 == 0))
+    shared = rng.random() < 0.5
+    pspec = gen_pipeline(rng, mapping_names=(i % 3 == 0), shared_names=shared)
+    if shared and len({m["name"] for ms in pspec.values() for m in ms}) < sum(len(ms) for ms in pspec.values()):
+        rec.count("shared_name_pipelines")
     vkeys = valid_keys(kind, pspec)
     case = {"detector": dspec, "pipeline": pspec}
     rec.observe("kinds", kind)
@@ -1272,6 +1631,8 @@ def run_case(rec, i, spec):
     phase_run_valid(rec, rng, kind, dspec, pspec, vkeys, case, i)
     phase_run_invalid(rec, rng, kind, dspec, pspec, bad, case, i, with_calib=bool(spec.get("calib")))
     phase_sweeps(rec, rng, kind, dspec, pspec, vkeys, case, i)
+    phase_copies(rec, rng, kind, dspec, pspec, vkeys, case, i)
+    phase_sweep_valid(rec, rng, kind, dspec, pspec, vkeys, case, i)
 
 
 def warm_up():
